@@ -56,7 +56,8 @@ fn sig_args_same(r: &J, e: &J) -> bool {
             (Some(x), Some(y)) => y.last().and_then(|z| z.as_u64()) == Some(0) && x[..] == y[..y.len() - 1],
             _ => false,
         };
-        ty && (same_val || cut)
+        let _ = cut;     // (a trimmed terminator was proposed as latitude and withdrawn: seeded change C13_G)
+        ty && same_val
     })
 }
 /// suite "slice"
